@@ -435,14 +435,38 @@ def splitLines : Chars → List Chars
       | h :: t => (c :: h) :: t
 
 /-! ### the error renderer (parser/errors.go FriendlyErrorMessage): its two `strings.Repeat`
-    counts, as integers.  `Repeat` panics on a negative count. -/
+    counts, as integers.  `Repeat` panics on a negative count.
 
-def padCount (startCol : Nat) : Int := (startCol + 1 : Int) - 1
-def caretCount (startCol endCol : Nat) : Int := (endCol + 1 : Int) - (startCol + 1) + 1
+    Repaired by `fix: keep the caret line of a parse error inside the quoted line`: the caret
+    count is taken from the two columns only when the span ends on the line it starts on,
+    otherwise it runs from the start column to the end of the quoted line; it is never below 1
+    and the padding never below 0.  The pre-fix counts are kept as `preFix…` (historical). -/
 
-/-- does `FriendlyErrorMessage` return (true) or panic (false) -/
-def renderOk (startCol endCol : Nat) : Bool :=
-  decide (0 ≤ padCount startCol) && decide (0 ≤ caretCount startCol endCol)
+/-- HISTORICAL: the padding count before the repair, `colStart - 1` -/
+def preFixPadCount (startCol : Nat) : Int := (startCol + 1 : Int) - 1
+/-- HISTORICAL: the caret count before the repair, `colEnd - colStart + 1` from the columns of
+    two positions that may lie on different lines -/
+def preFixCaretCount (startCol endCol : Nat) : Int := (endCol + 1 : Int) - (startCol + 1) + 1
+
+/-- HISTORICAL: did the pre-fix `FriendlyErrorMessage` return (true) or panic (false) -/
+def preFixRenderOk (startCol endCol : Nat) : Bool :=
+  decide (0 ≤ preFixPadCount startCol) && decide (0 ≤ preFixCaretCount startCol endCol)
+
+/-- `padLen`: `colStart - 1`, not below 0 -/
+def padCount (startCol : Nat) : Int :=
+  if (startCol + 1 : Int) - 1 < 0 then 0 else (startCol + 1 : Int) - 1
+
+/-- `caretLen`: `colEnd - colStart + 1` if `end.Line == start.Line`, else
+    `utf8.RuneCountInString(sourceCode) - padLen`; not below 1 -/
+def caretCount (startLine startCol endLine endCol lineLen : Nat) : Int :=
+  let n : Int := if endLine ≠ startLine then (lineLen : Int) - padCount startCol
+                 else (endCol + 1 : Int) - (startCol + 1) + 1
+  if n < 1 then 1 else n
+
+/-- does `FriendlyErrorMessage` return (true) or panic (false): both `strings.Repeat` counts
+    are non-negative.  `lineLen` = runes of the quoted line. -/
+def renderOk (startLine startCol endLine endCol lineLen : Nat) : Bool :=
+  decide (0 ≤ padCount startCol) && decide (0 ≤ caretCount startLine startCol endLine endCol lineLen)
 
 /-! ### Spec: what the property demands of a diagnostic -/
 
@@ -452,7 +476,8 @@ def diagOk (src : Chars) (line col : Nat) (quoted : Chars) : Bool :=
   | some l => col ≤ l.length && quoted == l
   | none => false
 
-/-- decidable guard of `render_total_partial` -/
+/-- the span lies on one line: the decidable guard `render_total_partial` carried before the
+    repair (now: where the repaired and the pre-fix counts coincide, `render_single_line_unchanged`) -/
 def singleLineSpan (src : Chars) (s e : Nat) : Bool :=
   s ≤ e && (posAt src s).line == (posAt src e).line
 
